@@ -32,6 +32,7 @@ import (
 	"path/filepath"
 	"strings"
 	"sync"
+	"time"
 
 	"github.com/jimstudt/http-authentication/basic"
 	"github.com/tmpim/casket/caskethttp/httpserver"
@@ -141,7 +142,15 @@ type PasswordMatcher func(pw string) bool
 var (
 	htpasswords   map[string]map[string]PasswordMatcher
 	htpasswordsMu sync.Mutex
+
+	// modification time and size each cached htpasswd file had when it was parsed
+	htpasswordStamps map[string]htpasswdStamp
 )
+
+type htpasswdStamp struct {
+	modTime time.Time
+	size    int64
+}
 
 // GetHtpasswdMatcher matches password rules.
 func GetHtpasswdMatcher(filename, username, siteRoot string) (PasswordMatcher, error) {
@@ -150,6 +159,16 @@ func GetHtpasswdMatcher(filename, username, siteRoot string) (PasswordMatcher, e
 	defer htpasswordsMu.Unlock()
 	if htpasswords == nil {
 		htpasswords = make(map[string]map[string]PasswordMatcher)
+		htpasswordStamps = make(map[string]htpasswdStamp)
+	}
+	// The parsed file is kept across rules, sites and reloads, but only for
+	// as long as the file is the one that was parsed: an edited htpasswd file
+	// (a password changed, a user removed) takes effect on the next load.
+	if stamp, ok := htpasswordStamps[filename]; ok {
+		if fi, err := os.Stat(filename); err == nil && (!fi.ModTime().Equal(stamp.modTime) || fi.Size() != stamp.size) {
+			delete(htpasswords, filename)
+			delete(htpasswordStamps, filename)
+		}
 	}
 	pm := htpasswords[filename]
 	if pm == nil {
@@ -163,6 +182,9 @@ func GetHtpasswdMatcher(filename, username, siteRoot string) (PasswordMatcher, e
 			return nil, fmt.Errorf("parsing htpasswd %q: %v", fh.Name(), err)
 		}
 		htpasswords[filename] = pm
+		if fi, err := fh.Stat(); err == nil {
+			htpasswordStamps[filename] = htpasswdStamp{fi.ModTime(), fi.Size()}
+		}
 	}
 	if pm[username] == nil {
 		return nil, fmt.Errorf("username %q not found in %q", username, filename)
